@@ -574,6 +574,14 @@ extern "C" void h_and_wide() {       // &= wide alone, so that the exclusion is 
     c &= x; vf_assert(inv(c), 3); vf_assert(m_eq(c, mw), 4);
     vf_witness();
 }
+extern "C" void h_ffb_zero() {       // FindFirstBit of ZERO: the bit index is unspecified (Platform::FindFirstBit's contract), but the scan
+    B b; any_state(b);               // stays inside the object and leaves it unchanged ("including when the value is zero")
+    M m = m_of(b);
+    vf_assume(m_is_zero(m));
+    const unsigned r = b.FindFirstBit(); (void)r;
+    vf_assert(inv(b) && m_is_zero(m_of(b)), 1);
+    vf_witness();
+}
 extern "C" void h_ffb() {            // FindFirstBit of a non-zero value: the lowest set bit
     B b; any_state(b);
     M m = m_of(b);
